@@ -83,3 +83,59 @@ Theorem C01_normalize_preserves : forall (allowed : N -> bool) (p : str),
   allowed 47%N = true -> comp_ok allowed p = true -> comp_ok allowed (normalize_path p) = true.
 Proof. exact normalize_path_comp_ok. Qed.
 Print Assumptions C01_normalize_preserves.
+
+(** The reachable-URL invariant, for EVERY operation sequence.  [pqf_ok u]: the stored path,
+    query and fragment of [u] each satisfy the per-component predicate (pure ASCII, every
+    '%' starts an escape of two upper-case hex digits, every literal character in the RFC
+    3986 alphabet of that component).  It is established by every auto-encoding
+    constructor (URL(str), build(encoded=False)) ... *)
+From Yarl Require Import Model.Prog Proofs.ReachWfProofs.
+Theorem C01_constructors_establish : forall (O : oracles) (B : backend) (c : ctor) (u : url),
+  auto_ctor c -> run_ctor O B c = Ok u -> pqf_ok u.
+Proof. exact ctor_ok. Qed.
+Print Assumptions C01_constructors_establish.
+
+(** ... preserved by every modifier with auto-encoding arguments: with_scheme/user/password/
+    host/port, with_path, with_query, extend_query, update_query (old pairs are re-serialised
+    through parse_qsl and MultiDict.update), without_query_params, with_fragment, with_name,
+    with_suffix, parent, joinpath, /, origin, relative, pickling ... *)
+Theorem C01_modifiers_preserve : forall (O : oracles) (B : backend) (u : url) (o : op) (u' : url),
+  pqf_ok u -> auto_op o -> run_op O B u o = Ok u' -> pqf_ok u'.
+Proof. exact op_preserves. Qed.
+Print Assumptions C01_modifiers_preserve.
+
+(** ... and by join (whatever the two operands' schemes and authorities) ... *)
+Theorem C01_join_preserves : forall (base ref : url), pqf_ok base -> pqf_ok ref -> pqf_ok (join_url base ref).
+Proof. exact join_url_ok. Qed.
+Print Assumptions C01_join_preserves.
+
+(** ... hence holds of every URL on the stack after any program of such instructions, of
+    any length (induction over the instruction list). *)
+Theorem C01_programs : forall (O : oracles) (B : backend) (p : list instr) (st : list url),
+  Forall auto_instr p -> run_prog O B p [] = Ok st -> Forall pqf_ok st.
+Proof. intros O B p st A H. exact (programs_pqf_ok O B p [] st A (Forall_nil _) H). Qed.
+Print Assumptions C01_programs.
+
+(** non-vacuity: a five-instruction program (constructor, joinpath with a dot segment and a
+    non-ASCII character, update_query, a second URL, join) meets the hypotheses and runs *)
+Definition c01_no_oracles : oracles :=
+  mk_oracles (fun s => s) (fun _ => None) (fun _ => None) (fun _ => None) (fun _ => None) (fun _ => None) (fun s => s).
+Definition c01_prog : list instr :=
+  [ IPush (CUrl [104;116;116;112;58;47;47;104;47;97;32;98;63;120;61;49]);        (* http://h/a b?x=1 *)
+    IOp (OJoinPath [[46;46]; [233; 37]] false);                                  (* joinpath('..', 'é%') *)
+    IOp (OUpdateQuery (QAStr [120;61;34;38;121]));                               (* update_query with the text x, =, double quote, &, y *)
+    IPush (CUrl [46;46;47;99;35;60]);                                            (* ../c#< *)
+    IJoin ].
+Example C01_programs_example :
+  Forall auto_instr c01_prog /\ exists u, run_prog c01_no_oracles BC c01_prog [] = Ok [u] /\ pqf_ok u.
+Proof.
+  assert (A : Forall auto_instr c01_prog).
+  { unfold c01_prog. repeat constructor; cbn; unfold valid_str; repeat constructor; discriminate. }
+  split; [exact A|].
+  destruct (run_prog c01_no_oracles BC c01_prog []) as [st|e] eqn:E; [|vm_compute in E; discriminate].
+  pose proof (C01_programs _ _ _ _ A E) as F.
+  vm_compute in E.
+  match type of E with Ok [?u0] = Ok _ => exists u0 end. injection E as <-.
+  split; [vm_compute; reflexivity|now inversion F].
+Qed.
+Print Assumptions C01_programs_example.
